@@ -267,7 +267,6 @@ impl Ord for Bound {
             (Upper(Including(v1)), Upper(Including(v2)))
             | (Upper(Including(v1)), Lower(Including(v2)))
             | (Upper(Excluding(v1)), Upper(Excluding(v2)))
-            | (Upper(Excluding(v1)), Lower(Excluding(v2)))
             | (Lower(Including(v1)), Upper(Including(v2)))
             | (Lower(Including(v1)), Lower(Including(v2)))
             | (Lower(Excluding(v1)), Lower(Excluding(v2))) => v1.cmp(v2),
@@ -280,8 +279,7 @@ impl Ord for Bound {
                     Ordering::Less
                 }
             }
-            (Upper(Including(v1)), Upper(Excluding(v2)))
-            | (Upper(Including(v1)), Lower(Excluding(v2)))
+            (Upper(Including(v1)), Lower(Excluding(v2)))
             | (Lower(Excluding(v1)), Upper(Including(v2))) => {
                 if v2 < v1 {
                     Ordering::Greater
@@ -289,7 +287,8 @@ impl Ord for Bound {
                     Ordering::Less
                 }
             }
-            (Lower(Excluding(v1)), Lower(Including(v2))) => {
+            (Lower(Excluding(v1)), Lower(Including(v2)))
+            | (Upper(Including(v1)), Upper(Excluding(v2))) => {
                 if v1 < v2 {
                     Ordering::Less
                 } else {
@@ -297,6 +296,7 @@ impl Ord for Bound {
                 }
             }
             (Lower(Including(v1)), Lower(Excluding(v2)))
+            | (Upper(Excluding(v1)), Lower(Excluding(v2)))
             | (Upper(Excluding(v1)), Lower(Including(v2)))
             | (Upper(Excluding(v1)), Upper(Including(v2))) => {
                 if v1 <= v2 {
